@@ -161,7 +161,7 @@ fn edit_shape<G: CurveTag>(ch: &mut Choices, m: &mut ProofMirror<G>) -> String {
 fn case<G: CurveTag>(bytes: &[u8], col: &mut Collector, large: bool) -> Result<(), Failure> {
     let cut = bytes.len().min(16);
     let mut chi = Choices::new(&bytes[..cut]);
-    let class = chi.weighted(&[14, 16, 40, 15, 15]);
+    let class = chi.weighted(&[12, 14, 30, 12, 12, 20]);
     let cfg = GenCfg { max_ops1: 10, max_closures: 2, max_ops2: 6, max_commits: 3, big_gates: if large { 40 } else { 0 } };
     let (prog, mut label): (Program, String) = match class {
         1 => {
@@ -183,6 +183,9 @@ fn case<G: CurveTag>(bytes: &[u8], col: &mut Collector, large: bool) -> Result<(
     prog.cap_p = Cap::Big;
     let shape = prog.shape();
     let pj = |extra: &str| json!({"program": prog.to_json(), "proof": extra});
+    if class == 5 {
+        return own_prover_case::<G>(&mut chi, &prog, col);
+    }
     let p = run_prover::<G>(&prog, &ProveOpts { record: class == 4, ..Default::default() });
     let Some(proof) = p.proof.as_ref() else {
         col.note("prover failed (left to C01)");
@@ -331,6 +334,65 @@ fn case<G: CurveTag>(bytes: &[u8], col: &mut Collector, large: bool) -> Result<(
     Ok(())
 }
 
+/// proofs made by the harness's own prover: honest, or deviating from the protocol in exactly
+/// one place (transcript-consistent, so that exactly one term of the relations is violated)
+fn own_prover_case<G: CurveTag>(chi: &mut Choices, prog: &Program, col: &mut Collector) -> Result<(), Failure> {
+    use crate::ownprover::{own_prove, Cheat};
+    let shape = prog.shape();
+    let d: Fr<G> = ScalarSpec::gen_nonzero(chi).to_f();
+    let cheat: Cheat<Fr<G>> = match chi.weighted(&[20, 30, 10, 10, 12, 8, 10]) {
+        0 => Cheat::None,
+        1 => Cheat::TShift([1usize, 3, 4, 5, 6][chi.below(5)], d),
+        2 => Cheat::EBlind(d),
+        3 => Cheat::TBlind(d),
+        4 => Cheat::LVec(chi.below(shape.padded()), d),
+        5 if shape.padded() > shape.n() && shape.n() > 0 => Cheat::NoPadding,
+        5 => Cheat::TShift(1, d),
+        _ => Cheat::MaskMismatch(d),
+    };
+    let label = format!("own prover: {:?}", cheat).chars().take(60).collect::<String>();
+    let op = own_prove::<G>(prog, prog.seed, &cheat);
+    let enc = op.mirror.to_bytes();
+    let Ok(real_proof) = ark_bulletproofs::r1cs::R1CSProof::<G>::from_bytes(&enc) else {
+        col.class("own-prover:not-decodable");
+        return Ok(());
+    };
+    let v = run_verifier::<G>(prog, &op.commitments, &real_proof, &VerifyOpts { record: true, ..Default::default() });
+    let chv = extract_challenges::<G>(&v.log, v.main_id, v.challenges.len());
+    let pc = pc_gens::<G>();
+    let gens = bp_gens::<G>(256, 1);
+    let gv: Vec<G> = gens.G(shape.padded(), 1).cloned().collect();
+    let hv: Vec<G> = gens.H(shape.padded(), 1).cloned().collect();
+    let r = ref_r1cs::<G>(&v.model, &op.commitments, &op.mirror, &pc.B, &pc.B_blinding, &gv, &hv, chv.as_ref());
+    let what = || json!({"program": prog.to_json(), "proof_class": label, "reference": format!("{:?}", r), "real": v.verdict(), "proof_hex": hex::encode(&enc)});
+    let Some(ra) = r.accept() else {
+        if v.accepted() {
+            return Err(Failure::new("C03:own-prover:accept-without-challenges", "verify accepted but the run's log lacks the protocol challenges", what()));
+        }
+        col.note("own prover: reference undetermined");
+        return Ok(());
+    };
+    if ra != v.accepted() {
+        return Err(Failure::new(
+            format!("C03:own-prover:{}:real-{}", r.class(), if v.accepted() { "accepts" } else { "rejects" }),
+            format!("reference relations say {} but verify = {} ({})", r.class(), v.verdict(), label),
+            what(),
+        ));
+    }
+    // an honest run of the independent prover on a satisfied system must be accepted (by both)
+    if cheat == Cheat::None && op.model.satisfied() && !ra {
+        col.note("own honest proof rejected by the reference (harness self-check)");
+    }
+    col.class(&format!("ref:{}", r.class()));
+    col.class(&format!("own-prover:{}", format!("{:?}", cheat).split('(').next().unwrap_or("")));
+    col.class("class:own-prover");
+    if matches!(r.class(), "accept" | "reject:b-only" | "reject:c-only") {
+        col.nontrivial(fp_of(&(prog.fingerprint(), label.clone())));
+    }
+    col.sample(true, || json!({"program": prog.to_json(), "proof_class": label, "reference": r.class(), "real": v.verdict()}));
+    Ok(())
+}
+
 fn dispatch(sub: &str, bytes: &[u8], col: &mut Collector) -> Result<(), Failure> {
     let curve = Curve::from_name(sub.split('/').nth(1).unwrap_or("")).unwrap_or(Curve::Secq);
     let large = sub.ends_with("/large");
@@ -360,7 +422,7 @@ pub fn run(tier: &str, seed: u64) -> i32 {
         let nl = super::scale(tier, 24, 400);
         rep.outcome.merge(search(&subl, seed, nl, 900, &|b, col| dispatch(&subl, b, col)));
     }
-    for (c, f) in [("ref:accept", 0.05), ("ref:reject:a", 0.03), ("ref:reject:b-only", 0.03), ("ref:reject:c-only", 0.03), ("identity-crafted: (b) and (c) hold, (a) fails", 0.01)] {
+    for (c, f) in [("ref:accept", 0.05), ("ref:reject:a", 0.03), ("ref:reject:b-only", 0.03), ("ref:reject:c-only", 0.03), ("identity-crafted: (b) and (c) hold, (a) fails", 0.01), ("own-prover:None", 0.01), ("own-prover:TShift", 0.02), ("own-prover:LVec", 0.005), ("own-prover:EBlind", 0.005)] {
         rep.required_classes.push((c.to_string(), f));
     }
     rep.finish()
